@@ -272,7 +272,9 @@ impl RustRuleEngine {
 
     /// Activate agenda group
     pub fn activate_agenda_group(&mut self, group: String) {
-        self.workflow_engine.activate_agenda_group(group.clone());
+        // The focus change is applied here and now. It must not also be queued in the
+        // workflow engine: the queued copy would be applied a second time by
+        // sync_workflow_agenda_activations, i.e. the group would be activated twice.
         self.agenda_manager.set_focus(&group);
     }
 
@@ -1280,8 +1282,10 @@ impl RustRuleEngine {
                 if self.config.debug_mode {
                     println!("  🎯 Activating agenda group: {}", group);
                 }
-                // Sync with both workflow engine and agenda manager immediately
-                self.workflow_engine.activate_agenda_group(group.clone());
+                // Apply the focus change immediately. It is not queued in the workflow
+                // engine as well: the end-of-pass sync would apply the queued copy again,
+                // which activates the group a second time and clears its lock-on-active
+                // record, so a lock-on-active rule fired twice for one activation.
                 self.agenda_manager.set_focus(group);
             }
             ActionType::ScheduleRule {
